@@ -405,7 +405,7 @@ def unit_class(units):
     return "mixed-units" if len(set(units)) > 1 else "one-unit"
 
 
-def check_program(ctx, prog, leaves, forms=("operator", "ufunc")):
+def check_program(ctx, prog, leaves, forms=("operator", "ufunc"), tag=None):
     try:
         rv = eval_ref(prog, leaves)
     except Invalid:
@@ -425,7 +425,7 @@ def check_program(ctx, prog, leaves, forms=("operator", "ufunc")):
         r = run_real(lambda: eval_real(prog, leaves, form))
         results[form] = r
         case = {"prog": prog, "leaves": [(l.unit, np.asarray(l.q.d).tolist()) for l in leaves], "form": form}
-        base = f"C04|prog={shape_key(prog)}|form={form}|units={unit_class(units)}|custom={int('code_length' in units)}"
+        base = f"C04|prog={shape_key(prog)}|form={form}|units={tag or unit_class(units)}|custom={int('code_length' in units)}"
         ctx.outcome((shape_key(prog), form, r[0], unit_class(units)))
         if r[0] != "ok":
             # the reference type-checker accepted the program: refusing a dimensionally valid expression
@@ -570,6 +570,61 @@ def part_offset(ctx, shard):
                                 ctx.violation(base + "|mode=wrong-value", case, np.asarray(want).tolist(), {"value": np.asarray(res.d).tolist(), "units": str(res.units), "abs_si": np.asarray(got).tolist()})
 
 
+EXTRA_LEAVES = ["erg", "J", "1/(N*m)", "Pa", "cm**2/N", "N/cm**2", "1/s", "kHz", "1/m", "km/s/Mpc", "Mpc", "g/kg", "percent", "m**2/cm", "hr/s"]
+
+
+def part_extra(ctx, shard):
+    """compound, inverse and self-cancelling leaf units (erg x 1/(N*m), Pa x cm**2/N, km/s/Mpc x Mpc ...): all ordered pairs
+    under the depth-1 binary programs and the products/quotients nested once, in every call form"""
+    world.reset_world()
+    pack = ctx.seed % len(PACKS)
+    L0, L1 = ("leaf", 0), ("leaf", 1)
+    progs = [("bin", op, L0, L1) for op in BINARY] + [("un", u, ("bin", b, L0, L1)) for u in ("sqrt", "neg", "mul2") for b in ("mul", "div")]
+    progs += [("red", r, ("bin", b, L0, L1)) for r in REDUCE for b in ("mul", "div")]
+    for units in shard:
+        leaves = [Leaf(u, i, pack, "array", None) for i, u in enumerate(units)]
+        for prog in progs:
+            forms = ("operator", "ufunc", "inplace", "out")
+            if prog[0] == "bin" and prog[1] == "dot":
+                forms = forms + ("method", "helper")
+            check_program(ctx, prog, leaves, forms)
+
+
+def _leaf(q):
+    lf = Leaf.__new__(Leaf)
+    lf.unit = str(q.units)
+    lf.q = q
+    lf.rv = RV(np.asarray(q.d, dtype=float) * float(q.units.base_value), dim_of(q.units.dimensions))
+    return lf
+
+
+def part_namesake(ctx, shard):
+    """two operands whose units are SPELLED the same but have different sizes: a unit object kept across a modify() of its
+    symbol, and the same symbol defined differently in two registries.  Results must follow the sizes, not the spelling."""
+    world.reset_world()
+    L0, L1 = ("leaf", 0), ("leaf", 1)
+    progs = [("bin", op, L0, L1) for op in BINARY if op not in ("dot", "matmul")]
+    for scenario in shard:
+        for shape in ("array", "scalar"):
+            for order in ("ab", "ba"):
+                if scenario == "stale-after-modify":
+                    reg = UnitRegistry()
+                    reg.add("box", 2.0, udims.length)
+                    a = unyt_array(np.array([1.5, 2.25, 3.0]), "box", registry=reg) if shape == "array" else unyt_quantity(1.5, "box", registry=reg)
+                    reg.modify("box", 5.0)
+                    b = unyt_array(np.array([0.5, 4.0, 7.0]), "box", registry=reg) if shape == "array" else unyt_quantity(0.5, "box", registry=reg)
+                else:
+                    r1, r2 = UnitRegistry(), UnitRegistry()
+                    r1.add("box", 2.0, udims.length)
+                    r2.add("box", 5.0, udims.length)
+                    a = unyt_array(np.array([1.5, 2.25, 3.0]), "box", registry=r1) if shape == "array" else unyt_quantity(1.5, "box", registry=r1)
+                    b = unyt_array(np.array([0.5, 4.0, 7.0]), "box", registry=r2) if shape == "array" else unyt_quantity(0.5, "box", registry=r2)
+                leaves = [_leaf(a), _leaf(b)] if order == "ab" else [_leaf(b), _leaf(a)]
+                for prog in progs:
+                    forms = ("operator", "ufunc") if shape == "scalar" else ("operator", "ufunc", "inplace", "out")
+                    check_program(ctx, prog, leaves, forms, tag=f"namesake:{scenario}")
+
+
 TRIG_UNITS = ["rad", "degree", "arcmin", "lat", "lon"]
 
 
@@ -632,6 +687,9 @@ def run(ctx):
     harness.pmap(ctx, part, shards)
     harness.pmap(ctx, part_offset, [[(g, n)] for g in OFFSET_GROUPS for n in g])
     harness.pmap(ctx, part_trig_offset, [[n] for n in TRIG_UNITS])
+    extra_pairs = list(itertools.product(EXTRA_LEAVES, EXTRA_LEAVES))
+    harness.pmap(ctx, part_extra, [extra_pairs[i::32] for i in range(32)])
+    harness.pmap(ctx, part_namesake, [["stale-after-modify"], ["two-registries"]])
     return {
         "coverage": {
             "rule": "all expression programs of depth <= 2 over the operation alphabet x every assignment of leaf units "
